@@ -341,6 +341,7 @@ Section ExprInd.
   Hypothesis HExists : forall q, P (EExists q).
   Hypothesis HAgg : forall f arg, P (EAgg f arg).
   Hypothesis HCall : forall qual name args, Forall P args -> P (ECall qual name args).
+  Hypothesis HTuple : forall items, Forall P items -> P (ETuple items).
 
   Fixpoint expr_ind' (e : expr Q) : P e :=
     match e with
@@ -384,11 +385,15 @@ Section ExprInd.
         HCall qual name args
             ((fix go (l : list (expr Q)) : Forall P l :=
                 match l with [] => Forall_nil _ | x :: r => Forall_cons _ (expr_ind' x) (go r) end) args)
+    | ETuple items =>
+        HTuple items
+            ((fix go (l : list (expr Q)) : Forall P l :=
+                match l with [] => Forall_nil _ | x :: r => Forall_cons _ (expr_ind' x) (go r) end) items)
     end.
 End ExprInd.
 
 (* a filter/projection expression: columns, literals, comparisons, LIKE, IN (list), BETWEEN, IS,
-   arithmetic, CASE, scalar function calls — no aggregate and no subquery *)
+   arithmetic, CASE, scalar function calls, value tuples — no aggregate and no subquery *)
 Fixpoint plain_expr {Q} (e : expr Q) : bool :=
   match e with
   | ECol _ | ENum _ | EStr _ | EBool _ | ENull => true
@@ -400,6 +405,7 @@ Fixpoint plain_expr {Q} (e : expr Q) : bool :=
       forallb (fun w => plain_expr (fst w) && plain_expr (snd w)) whens &&
       match els with Some x => plain_expr x | None => true end
   | ECall _ _ args => forallb plain_expr args
+  | ETuple items => forallb plain_expr items
   | EInSub _ _ _ | ESub _ | EExists _ | EAgg _ _ => false
   end.
 
@@ -454,6 +460,13 @@ Section EnvIrrelevant.
     - (* ECall *)
       rewrite Hcall. f_equal.
       match goal with HF : Forall _ args, HP : forallb plain_expr args = true |- _ =>
+        induction HF as [|x r Hx _ IHr]; [reflexivity|];
+        cbn [forallb] in HP; apply Bool.andb_true_iff in HP; destruct HP as [HPx HPr];
+        rewrite (Hx HPx), (IHr HPr); reflexivity
+      end.
+    - (* ETuple *)
+      f_equal.
+      match goal with HF : Forall _ items, HP : forallb plain_expr items = true |- _ =>
         induction HF as [|x r Hx _ IHr]; [reflexivity|];
         cbn [forallb] in HP; apply Bool.andb_true_iff in HP; destruct HP as [HPx HPr];
         rewrite (Hx HPx), (IHr HPr); reflexivity
